@@ -11,7 +11,10 @@ def claims(tier):
     q = tier == 'quick'
     c = [('inv3', 0, 0), ('inv4', 0, 0), ('detmul3', 0, 0), ('detmul4', 0, 0), ('solve', 2, 0), ('solve', 3, 0), ('lsq', 3, 2), ('quat', 0, 0)]
     if not q:
-        c += [('solve', 4, 0), ('lsq', 4, 2), ('lsq', 4, 3), ('quatmat', 0, 0)]
+        c += [('lsq', 4, 2), ('quatmat', 0, 0)]      # solve n=4 and lsq 4x3 do not finish (z3 nlsat > 20 min per pivot path): outside the claim
+    only = os.environ.get('C20_CLAIMS')          # development aid: restrict to e.g. 'solve:4:0,quatmat:0:0'
+    if only:
+        c = [x for x in c if '%s:%d:%d' % x in only.split(',')]
     return c
 
 
@@ -151,7 +154,7 @@ def main(a):
                            'undecided': [{'claim': r['claim'], 'n': r['n'], 'm': r['m'], 'path': r['path'], 'feasible': r['path_feasible'], 'claim_result': r['negated_claim']} for r in undec],
                            'functions_encoded': ['Matrix3_<T>::inverse/det/operator*', 'Matrix4_<T>::inverse/det/operator*/t/rotation', 'Matrix_<T>/solve/solve_/transposed', 'Quaternion_<T>::matrix'],
                            'bounds': 'exact identities over all reals; the only bound is the dimension: 3x3/4x4 inverse and determinant product, solve n=2,3 (thorough 4), least squares 3x2 (thorough 4x2, 4x3), quaternion<->matrix',
-                           'outside_claim': ['floating-point residual clause', 'every conversion through sin/cos/atan2/acos (axis-angle, Euler orders): transcendental, not encodable', 'systems larger than 4x4'],
+                           'outside_claim': ['floating-point residual clause', 'every conversion through sin/cos/atan2/acos (axis-angle, Euler orders): transcendental, not encodable', 'square systems larger than 3x3 and least-squares systems with more than 2 unknowns (z3 nlsat does not finish the 4x4 pivot paths within 20 min each)'],
                            'solver_time_s': round(sum(r['solver_s'] for r in results), 1), 'build_s': round(build_s, 1), 'engine_errors': errors[:5]},
               'assumptions': ['division is real division; divisors that vanish make the path infeasible only through the assumed nonsingularity (reference determinant != 0)', 'sqrt(x) = y with y>=0 and y*y=x'],
               'wall_s': round(time.time() - t_start, 1), 'violations': new}
